@@ -739,4 +739,63 @@ theorem tagReqs_adjacent (K : Kern) : ∀ (es : List Ent) (n : Nat) (p : Option 
       simp only [tagReqs, List.getElem?_cons_succ] at h0 h1
       exact ih _ _ j r r' h0 h1
 
+/-- the (user_data, res) pairs the application has read from the completions it reaped, in order -/
+def reapedPairs (s : KSt) : List (Nat × Nat) := s.ring.reaped.map fun e => (cqeUd e.val, cqeRes e.val)
+
+/-- for every entry the application filled and flushed, in order: its user_data (u64) and the direct
+system call's result (i32 bit pattern), the n-th entry executed as the n-th submission -/
+def flushedPairs (K : Kern) (s : KSt) : List (Nat × Nat) :=
+  s.ring.flushed.mapIdx fun n e => (K.ud e.val % U64, K.sys n e.val % W)
+
+section
+variable {K : Kern} {k kc c cc : Nat} {s : KSt}
+
+theorem owed_pairs_nolink (h : KInv K s) (hnl : ∀ e ∈ s.ring.consumed, K.link e.val = false) :
+    (owed K s).map (fun w => (cqeUd w, cqeRes w)) =
+      s.ring.consumed.mapIdx fun n e => (K.ud e.val % U64, K.sys n e.val % W) := by
+  have hd : ∀ q, linkedBehind s.deps q = false := by
+    intro q
+    unfold linkedBehind
+    cases hq : s.deps[q]? with
+    | none => rfl
+    | some d =>
+      cases d with
+      | none => rfl
+      | some m =>
+        obtain ⟨_, e, he, hl⟩ := h.dep_ok q m hq
+        rw [hnl e (List.mem_of_getElem? he)] at hl
+        cases hl
+  rw [owed, List.map_map]
+  apply range_map_mapIdx
+  intro i a ha
+  simp only [Function.comp, expWord, ha, outcome_nolink K _ _ hd, outcomeOf, cqeUd_cqeWord, cqeRes_cqeWord]
+  rfl
+
+/-- the unlinked case in the property's own terms, state level -/
+theorem pairs_state (h : KInv K s) (hr : RInv k kc c cc s.ring) (hnl : ∀ e ∈ s.ring.filled, K.link e.val = false) :
+    (∃ rest, (reapedPairs s ++ rest).Perm (flushedPairs K s)) ∧
+    (KQuiet s → (step .fixed s.ring .reap).2 = .noCqe → (reapedPairs s).Perm (flushedPairs K s)) := by
+  obtain ⟨inq, unpub, cinq, hi⟩ := id hr
+  have hsub : ∀ e ∈ s.ring.consumed, K.link e.val = false := by
+    intro e he
+    apply hnl
+    rw [hi.filled_eq, hi.flushed_eq]
+    exact List.mem_append_left _ (List.mem_append_left _ he)
+  have hop := owed_pairs_nolink h hsub
+  constructor
+  · obtain ⟨_, _, _, rest, hperm⟩ := safety_state h hr
+    have hm := hperm.map (fun w => (cqeUd w, cqeRes w))
+    rw [hop, List.map_append, List.map_map] at hm
+    refine ⟨rest.map (fun w => (cqeUd w, cqeRes w)) ++
+      inq.mapIdx (fun i e => (K.ud e.val % U64, K.sys (i + s.ring.consumed.length) e.val % W)), ?_⟩
+    rw [flushedPairs, hi.flushed_eq, List.mapIdx_append, ← List.append_assoc]
+    exact List.Perm.append_right _ hm
+  · intro hq hempty
+    obtain ⟨hcf, hperm⟩ := complete_state h hr hq hempty
+    have hm := hperm.map (fun w => (cqeUd w, cqeRes w))
+    rw [hop, List.map_map, hcf] at hm
+    exact hm
+
+end
+
 end TinyVerif.Ring
